@@ -246,6 +246,7 @@ var implOps = map[string]func(h caseHead, raw []byte) map[string]any{
 	"parse":  implParse,
 	"c15":    implC15,
 	"c07":    implC07,
+	"ms":     implMs,
 	"c08":    func(h caseHead, raw []byte) map[string]any { return implC08(h, raw) },
 }
 
